@@ -30,6 +30,7 @@ type c24Plan struct {
 	Compress bool     `json:"compress"`
 	Brotli   bool     `json:"brotli"`
 	Zstd     bool     `json:"zstd"`
+	OwnCompressRoot bool `json:"compress_root_differs_from_root"`
 	CacheMs  int      `json:"cache_duration_ms"`
 	Short    bool     `json:"short_reads"`
 	Mode     string   `json:"mode"`
@@ -73,7 +74,7 @@ func genRange(e *Env, l int) string {
 }
 
 func scenC24(e *Env) func() {
-	p := &c24Plan{Compress: e.Chance(60), Brotli: e.Chance(50), Zstd: e.Chance(50), CacheMs: Pick(e, 200, 10000), Short: e.Chance(40), Mode: Pick(e, "os", "os", "fsfs"), Concurrent: e.Chance(30)}
+	p := &c24Plan{OwnCompressRoot: e.Chance(50), Compress: e.Chance(60), Brotli: e.Chance(50), Zstd: e.Chance(50), CacheMs: Pick(e, 200, 10000), Short: e.Chance(40), Mode: Pick(e, "os", "os", "fsfs"), Concurrent: e.Chance(30)}
 	n := e.Range(3, 10)
 	for i := 0; i < n; i++ {
 		f := c24Files[e.Int(len(c24Files))]
@@ -207,7 +208,9 @@ func c24Run(e *Env, p *c24Plan) {
 		f.AllowEmptyRoot = true
 	} else {
 		f.Root = fx.root
-		f.CompressRoot = fx.cache
+		if p.OwnCompressRoot {
+			f.CompressRoot = fx.cache
+		}
 	}
 	if p.Short {
 		k := 0
